@@ -13,17 +13,26 @@ Sub-checks
                 every call is judged by the single-call oracle. A spec is {o, sec, us, sep, calls: [[kind, dialect, 'dt'|'ymd'], ...]}
 
 A spec of spellings/all_days is  [ordinal, seconds of the day, microseconds]  (+ optional 4th element True = also
-evaluate the input class that is excluded as a known defect, see UK_FRACTION below). All strings are built here with
+evaluate the input class that is excluded as a known defect, see UK_FRACTION below). Every day is also read as a zone-aware datetime / pd.Timestamp
+(fixed offset from the ordinal) and 15 calls are repeated with the declared defaults of dialect / tzinfo / none / fmt passed explicitly. All strings are built here with
 plain %-formatting from the fields of the python datetime (no strftime -> no locale, no dt2str).
 """
 import datetime
+import os
 
 from hypothesis import strategies as st
 
 from pv.core import Sub, EnumSub, Violation, call, must_raise, check, short
 
 ASSUMPTIONS = [
-    'days in [1900-01-01, 2300-01-01), naive datetimes (tzinfo None), dialect in {uk, us}',
+    'days in [1900-01-01, 2300-01-01), dialect in {uk, us}; every spelling is zone-less (naive) except the two objects that can carry a zone themselves, see the next line',
+    'zone-aware stamps (generalisation class 21): a python datetime and a pd.Timestamp of the instant in ONE fixed-offset zone (datetime.timezone, offset != 0, rotating with the ordinal) are read by dt / ymd: '
+    'the result must be zone-aware and equal the instant ("dt(t) will leave t\'s timezone intact", dt docstring); ymd = midnight of the same calendar day in the same zone. Zones with DST / pytz zones are not generated '
+    '(datetime(..., tzinfo=pytz zone) means local mean time: not an instant the statement talks about)',
+    'NOT asserted (candidate defect, reported; behind INCLUDE_ZONE_TEXT = env PV_C04_INCLUDE_ZONE_TEXT=1): texts that carry a UTC offset - "yyyy-mm-ddThh:mm:ss.ffffff+05:30" and hence dt(dt2str(t)) of a zone-aware t: '
+    'uk2dt / us2dt end in tz_replace(res, None), which REMOVES the offset (the naive wall time comes back, != t). The statement does not quantify over zones, so this is kept out by default',
+    'explicit defaults (class 26): dialect="uk", tzinfo=None, none=datetime.datetime.now and dt2str(t, None) / dt2str(t, fmt=None) are the SAME calls as the ones without these keywords and are judged by the same oracle '
+    '(any other value of none= / tzinfo= / fmt= stays outside the statement, see below)',
     'day and month fields of strings are zero-padded to two digits and the year has four digits (strftime spelling); unpadded / two-digit-year strings are outside the claim (DESIGN section 4)',
     'separators {-,/,.,space} are applied to the day-month-year and month-day-year strings; "ISO" is yyyy-mm-dd[Thh:mm:ss[.ffffff]] only',
     'month names are the English full names and 3-letter abbreviations, in the spellings "dd Month yyyy", "Month dd, yyyy", "dd-Mon-yyyy", "dd Mon yyyy" (capitalised; the first and third also in upper and lower case)',
@@ -48,6 +57,21 @@ ASSUMPTIONS = [
     'LIFTED (was excluded by construction as a genuine defect, see UK_FRACTION; repaired in /repo by d325e52): UK-dialect dd-mm-yyyy string with a fractional-seconds time when day <= 12; '
     'INCLUDE_UK_FRACTION_LOW_DAYS is True, so spellings, edge_years, all_days and session all ask for it (False restores the exclusion; a spellings spec with a 4th element true asks for it regardless)',
 ]
+
+# zone-aware TEXTS (an ISO string with a UTC offset, the dt2str round trip of a zone-aware stamp): the library strips the offset; enable after repairing uk2dt / us2dt
+INCLUDE_ZONE_TEXT = os.environ.get('PV_C04_INCLUDE_ZONE_TEXT', '') == '1'
+ZONE_TEXT = 'uk2dt / us2dt return tz_replace(res, tzinfo) with tzinfo None, i.e. res.replace(tzinfo = None): the UTC offset parsed from the text is removed'
+ZONE_OFFSETS = [330, -480, 60, -210, 780, -300, 540, 345]   # minutes east of UTC, never 0: +05:30, -08:00, +01:00, -03:30, +13:00, -05:00, +09:00, +05:45
+
+
+def _zone(o):
+    return datetime.timezone(datetime.timedelta(minutes=ZONE_OFFSETS[o % len(ZONE_OFFSETS)]))
+
+
+def _zone_text(o):
+    off = ZONE_OFFSETS[o % len(ZONE_OFFSETS)]
+    return '%s%02d:%02d' % ('+' if off >= 0 else '-', abs(off) // 60, abs(off) % 60)
+
 
 # flip to True once uk2dt keeps the microseconds (then the generated cases include the class again)
 INCLUDE_UK_FRACTION_LOW_DAYS = True
@@ -80,6 +104,23 @@ def _same(what, got, exp):
         raise Violation('%s = %r, expected %r' % (what, got, exp))
 
 
+def _same_aware(what, got, exp):
+    """exp is zone-aware: the result must be a zone-aware datetime of the same instant (== of aware datetimes compares instants; aware == naive is False)"""
+    if not isinstance(got, DT):
+        raise Violation('%s returned %s of type %s, expected the zone-aware datetime %r' % (what, short(got), type(got).__name__, exp))
+    if got.tzinfo is None or got.utcoffset() is None:
+        raise Violation('%s returned the naive %r, expected the zone-aware %r (the zone was removed)' % (what, got, exp))
+    if not got == exp:
+        raise Violation('%s = %r, expected the instant %r' % (what, got, exp))
+
+
+_NOW = datetime.datetime.now     # the declared default of none=
+
+
+def _kw_text(kw):
+    return ''.join(', %s=%s' % (k, 'datetime.datetime.now' if v is _NOW else repr(v)) for k, v in kw.items())
+
+
 def run_day(spec):
     import numpy as np
     import pandas as pd
@@ -92,8 +133,8 @@ def run_day(spec):
     tsec = DT(y, m, d, h, mi, s)
 
     def one(f, fname, exp, *args, **kw):
-        what = '%s(%s%s)' % (fname, ', '.join(repr(a) for a in args), ''.join(', %s=%r' % i for i in kw.items()))
-        _same(what, call(what, f, *args, **kw), exp)
+        what = '%s(%s%s)' % (fname, ', '.join(repr(a) for a in args), _kw_text(kw))
+        (_same if exp.tzinfo is None else _same_aware)(what, call(what, f, *args, **kw), exp)
 
     def both(exp, text):
         one(dt, 'dt', exp, text)
@@ -221,8 +262,53 @@ def run_day(spec):
     one(ymd, 'ymd', day0, '%02d/%02d/%04d %s' % (d, m, y, hms))
     one(ymd, 'ymd', day0, '%02d/%02d/%04d %s' % (m, d, y, frac), dialect='us')
 
+    # ---- zone-aware stamps: the instant in one fixed-offset zone (offset != 0, from the ordinal) as python datetime and as pd.Timestamp.
+    #      The wall clock fields are those of t; the result must still be zone-aware and be the same instant; ymd = local midnight of the same day, same zone
+    tz = _zone(o)
+    ta, day0a = t.replace(tzinfo=tz), DT(y, m, d, tzinfo=tz)
+    tsa = pd.Timestamp(ta)
+    one(dt, 'dt', ta, ta)
+    one(dt, 'dt', ta, tsa)
+    one(ymd, 'ymd', day0a, ta)
+    one(ymd, 'ymd', day0a, tsa)
+    one(dt, 'dt', day0a, day0a)
+    if o % 2:
+        one(dt, 'dt', ta, pd.Timestamp(t).tz_localize(tz), **(dict(dialect='us') if o % 4 == 1 else {}))
+    if INCLUDE_ZONE_TEXT:
+        both(ta, ymd_ + 'T' + frac + _zone_text(o))
+        both(ta.replace(microsecond=0), ymd_ + 'T' + hms + _zone_text(o))
+        for x in (ta, day0a):
+            text = call('dt2str(%r)' % x, dt2str, x)
+            check(isinstance(text, str), 'dt2str(%s) returned %s, not a string', x, text)
+            one(dt, 'dt', x, text)
+
+    # ---- a parameter's own default passed explicitly (dialect='uk', tzinfo=None, none=datetime.datetime.now, dt2str's fmt=None), also handed on by ymd to dt:
+    #      the very calls made above without the keywords; one separator per day
+    sep = SEPS[(o // 2) % 4]
+    dmy = '%02d%s%02d%s%04d' % (d, sep, m, sep, y)
+    mdy = '%02d%s%02d%s%04d' % (m, sep, d, sep, y)
+    one(dt, 'dt', t, t, dialect='uk', none=_NOW, tzinfo=None)
+    one(dt, 'dt', tsec, dmy + ' ' + hms, dialect='uk', tzinfo=None)
+    one(dt, 'dt', t, mdy + ' ' + frac, dialect='us', none=_NOW, tzinfo=None)
+    one(dt, 'dt', day0, y, m, d, tzinfo=None)
+    one(dt, 'dt', tsec, y, m, d, h, mi, s, dialect='uk', none=_NOW)
+    one(dt, 'dt', day0, (o, y * 10000 + m * 100 + d)[o % 2], none=_NOW, tzinfo=None)
+    one(dt, 'dt', t, np.datetime64(t, 'us'), tzinfo=None)
+    one(dt, 'dt', ta, (ta, tsa)[o % 2], tzinfo=None)
+    one(ymd, 'ymd', day0, t, dialect='uk', none=_NOW, tzinfo=None)
+    one(ymd, 'ymd', day0, dmy + ' ' + hms, dialect='uk')
+    one(ymd, 'ymd', day0, ymd_ + 'T' + frac, tzinfo=None)
+    one(ymd, 'ymd', day0a, ta, none=_NOW, tzinfo=None)
+    for x, args, kw in ((t, (None,), {}), (day0, (), dict(fmt=None)), ((tsec, t)[o % 2], (), dict(fmt=None))):
+        what = 'dt2str(%r%s%s)' % (x, ''.join(', %r' % a for a in args), _kw_text(kw))
+        text = call(what, dt2str, x, *args, **kw)
+        check(isinstance(text, str), '%s returned %s, not a string', what, text)
+        one(dt, 'dt', x, text)
+
     # ---- classes
-    cls = []
+    cls = ['zone_aware_datetime_and_timestamp', 'defaults_passed_explicitly']   # both by construction in every case (see the two blocks above)
+    if INCLUDE_ZONE_TEXT:
+        cls.append('zone_aware_texts')
     ambiguous = d <= 12 and d != m
     leap_day = m == 2 and d == 29
     year_boundary = (m == 1 and d == 1) or (m == 12 and d == 31)
@@ -369,6 +455,10 @@ def run_overflow(spec):
         what = 'dt(%s)' % ', '.join(repr(a) for a in args)
         _same(what, call(what, dt, *args), exp)
     cls = ['month<1' if m < 1 else 'month>12' if m > 12 else 'month_in_range', 'triples_in_mixed_raw_types']
+    if m == 0:
+        cls.append('month=0')                       # the falsy month (day 0 is part of every case)
+    if first + D_LO - 1 < O_MIN or first + D_HI - 1 >= O_MAX:
+        cls.append('results_outside_[1900,2300)')   # answers just outside the range the statement's dates come from: still first of the normalised month + d - 1 days
     if yy != y:
         cls.append('other_year')
     if mm == 2:
@@ -394,7 +484,8 @@ def enum_overflow(tier):
 # ----------------------------------------------------------------------------- several calls on the same objects (state carried between calls)
 
 TEXT_KINDS = ['dmy', 'dmy_hms', 'dmy_frac', 'mdy', 'mdy_hms', 'mdy_frac', 'iso', 'iso_hms', 'iso_frac', 'ymd8', 'name_dmy', 'name_dmy_hms', 'name_mdy', 'mon']
-OTHER_KINDS = ['int8', 'ord', 'date', 'datetime', 'ts', 'np_us', 'np_D', 'parts3', 'parts6', 'dt2str']
+OTHER_KINDS = ['int8', 'ord', 'date', 'datetime', 'ts', 'np_us', 'np_D', 'parts3', 'parts6', 'dt2str', 'datetime_tz', 'ts_tz']
+ZONE_KINDS = ['datetime_tz', 'ts_tz']   # the instant as zone-aware python datetime / pd.Timestamp (fixed offset != 0 from the ordinal)
 NUMERIC_TEXT_KINDS = TEXT_KINDS[:6]     # the two leading fields are numbers: the dialect decides which is the day
 
 
@@ -416,13 +507,16 @@ def _session_objects(spec):
                 iso=ymd_, iso_hms=ymd_ + 'T' + hms, iso_frac=ymd_ + 'T' + frac, ymd8='%04d%02d%02d' % (y, m, d),
                 name_dmy=name, name_dmy_hms=name + ' ' + hms, name_mdy='%s %02d, %04d' % (MONTHS[m - 1], d, y), mon='%02d-%s-%04d' % (d, MONTHS[m - 1][:3], y),
                 int8=y * 10000 + m * 100 + d, ord=o, date=datetime.date(y, m, d), datetime=t, ts=pd.Timestamp(t), np_us=np.datetime64(t, 'us'),
-                np_D=np.datetime64(DT(y, m, d), 'D'), parts3=(y, m, d), parts6=(y, m, d, h, mi, s), dt2str=t)
+                np_D=np.datetime64(DT(y, m, d), 'D'), parts3=(y, m, d), parts6=(y, m, d, h, mi, s), dt2str=t,
+                datetime_tz=t.replace(tzinfo=_zone(o)), ts_tz=pd.Timestamp(t.replace(tzinfo=_zone(o))))
     return t, objs
 
 
 def _session_expect(t, kind, dialect):
     """single-call oracle: the datetime the statement demands for this spelling under this dialect, or None = must be rejected with ValueError"""
     y, m, d = t.year, t.month, t.day
+    if kind in ZONE_KINDS:
+        return t.replace(tzinfo=_zone(t.toordinal()))
     if kind in NUMERIC_TEXT_KINDS:
         day_first = kind.startswith('dmy')
         if day_first != (dialect == 'uk'):
@@ -466,8 +560,8 @@ def run_session(spec):
             must_raise(what + ' [string of the other dialect with day > 12]', ValueError, f, *args, **kw)
         else:
             if fname == 'ymd':
-                exp = DT(exp.year, exp.month, exp.day)
-            _same(what, call(what, f, *args, **kw), exp)
+                exp = DT(exp.year, exp.month, exp.day, tzinfo=exp.tzinfo)
+            (_same if exp.tzinfo is None else _same_aware)(what, call(what, f, *args, **kw), exp)
         results.append((kind, dialect, fname, exp))
     # ---- classes
     cls = ['calls=%i' % len(results)]
@@ -477,6 +571,8 @@ def run_session(spec):
     ambiguous = t.day <= 12 and t.day != t.month
     sub_day = bool(spec['sec'] or spec['us'])
     nt = False
+    if any(kind in by_kind for kind in ZONE_KINDS):
+        cls.append('zone_aware_object_in_session')
     for kind, rows in by_kind.items():
         if kind in TEXT_KINDS and len(set(r[1] for r in rows)) == 2:
             cls.append('same_text_under_both_dialects')
@@ -540,7 +636,9 @@ _FORMATS = ('datetime, date, (y,m,d), (y,m,d,h), (y,m,d,h,mi), (y,m,d,h,mi,s), y
             'three texts as numpy str_ (+ both rejections for day>12), '
             "ISO with a 6-digit fraction / with a 1-5 and 7-9 digit fraction / with seconds / date only, 'yyyymmdd', four month-name spellings (+time, +upper/lower case), "
             'dd{sep}mm{sep}yyyy [hh:mm:ss[.f{1,6}]] uk and mm{sep}dd{sep}yyyy [hh:mm:ss[.f{1,6}]] us (also dialect="US") for 4 separators, '
-            'other-dialect strings for day>12, dt2str round trips, 11 ymd() calls (about 130 calls per day). ')
+            'other-dialect strings for day>12, dt2str round trips, 11 ymd() calls; the instant as zone-aware datetime / pd.Timestamp (fixed offset != 0 from the ordinal) through dt and ymd '
+            '(result zone-aware, same instant); 15 of the calls again with the declared defaults passed explicitly (dialect="uk", tzinfo=None, none=datetime.datetime.now, dt2str fmt=None) '
+            '(about 155 calls per day). ')
 
 SUBS = [
     Sub('spellings', lambda tier: _day_case, run_day, quick=4000, thorough=30000,
@@ -552,17 +650,17 @@ SUBS = [
                                  'subsecond_from_2243': 0.05, 'subsecond_ns_2107_to_limit': 0.15, 'subsecond_before_1970': 0.03,
                                  'short_fraction_informative': 0.35, 'whole_milliseconds': 0.02, 'only_microsecond=1': 0.01,
                                  'last_microsecond_of_day': 0.01, 'hour=0_time!=0': 0.03,
-                                 'numbers_and_texts_in_mixed_raw_types': 0.3, 'month_end': 0.09, 'month_end_30th_or_31st': 0.035, '28feb_of_a_non_leap_year': 0.03}),
+                                 'numbers_and_texts_in_mixed_raw_types': 0.3, 'zone_aware_datetime_and_timestamp': 0.3, 'defaults_passed_explicitly': 0.3, 'month_end': 0.09, 'month_end_30th_or_31st': 0.035, '28feb_of_a_non_leap_year': 0.03}),
     Sub('session', lambda tier: _session_case(), run_session, quick=3000, thorough=20000,
         rule='state carried between calls: one instant (ambiguous days and the 12/13 threshold boosted), every spelling built ONCE, 2-5 calls of dt / ymd (dialect uk / us) on a pool of '
              '1-3 of those very objects, so the same text is read under both dialects in either order, the same call is repeated, ymd() precedes dt() of the same object and '
-             'a text is read next to texts it is a prefix of. Every call is judged by the single-call oracle: numeric day/month texts read in the other dialect are '
+             'a text is read next to texts it is a prefix of; the pool may hold the zone-aware datetime / pd.Timestamp of the instant. Every call is judged by the single-call oracle: numeric day/month texts read in the other dialect are '
              'the right spelling of year-day-month when day <= 12 and must raise ValueError when day > 12; everything else as in spellings. '
              'non-trivial = a numeric text under both dialects on a day with day != month, or ymd before dt of one intraday object, or prefix-related spellings with a time of day',
         floor=0.15, class_floors={'same_text_under_both_dialects': 0.2, 'same_numeric_text_under_both_dialects': 0.14, '...first_dialect=uk': 0.07, '...first_dialect=us': 0.06,
                                   '...two_different_right_answers(day<=12,day!=month)': 0.045, '...accepted_before_rejected': 0.04, '...rejected_before_accepted': 0.035,
                                   '...dialects_alternate_three_calls': 0.02, 'same_call_repeated': 0.16, 'ymd_before_dt_of_the_same_intraday_object': 0.035,
-                                  'one_spelling_is_a_prefix_of_another': 0.025,
+                                  'one_spelling_is_a_prefix_of_another': 0.025, 'zone_aware_object_in_session': 0.011,
                                   'calls=2': 0.13, 'calls=3': 0.11, 'calls=4': 0.06, 'calls=5': 0.025}),
     EnumSub('edge_years', enum_edge_years, run_day, chunks=8,
             rule='run in BOTH tiers: every day of the years %s (%i days: every month x day combination in leap and non-leap years, both ends of the domain, '
@@ -574,8 +672,11 @@ SUBS = [
             rule='(y, m) with y in [1900, 2299], m in [-36, 48]; each spec evaluates dt(y, m, d) for ALL 801 d in [-400, 400] against '
                  'datetime.fromordinal(ordinal of the 1st of the month reached by stepping m-1 months from January of y, + d - 1). '
                  'thorough enumerates all 400 x 85 = 34000 (y, m) = 27 234 000 triples; every spec is non-trivial (days outside the month are always included). '
-                 'Every 16th day (phase from (y, m)) the triple is passed again as numpy int64 / int32 / integer-valued float / numpy float64, mixed within the call'),
+                 'Every 16th day (phase from (y, m)) the triple is passed again as numpy int64 / int32 / integer-valued float / numpy float64, mixed within the call. '
+                 'Labels: month=0 (the falsy month), results_outside_[1900,2300) (some of the 801 answers lie before 1900 or after 2299: same oracle)'),
 ]
 # class floors of the overflow sub-check (EnumSub takes none in its constructor); they hold for the sampled quick tier and for the complete enumeration
 # (7 of the 85 months normalise to February, 97 of 400 years are leap years)
-SUBS[-1].class_floors = {'triples_in_mixed_raw_types': 0.3, 'february': 0.045, 'february_leap_year': 0.01, 'february_non_leap_year': 0.035, 'normalised_month_is_jan_or_dec': 0.15}
+SUBS[-1].class_floors = {'triples_in_mixed_raw_types': 0.3, 'february': 0.045, 'february_leap_year': 0.01, 'february_non_leap_year': 0.035, 'normalised_month_is_jan_or_dec': 0.15,
+                         # quick samples these at about 15% / 7%; the complete enumeration has 400 of 34000 pairs with month 0 (1.18%) and 260 with a result outside the range (0.76%)
+                         'month=0': 0.006, 'results_outside_[1900,2300)': 0.004}
